@@ -4,7 +4,9 @@
    defective call site in Proofs/BlasC13Refuted.v); what is proved instead is stated by the *_partial theorems, whose
    named exclusion predicates are gemm_site_cond / gemm_general_position_defect / gemv_site_cond (Model/BlasC13Crit.v). *)
 From BM Require Import Base.Tactics Model.BlasC13 Model.BlasC13Gen Model.BlasC13Ref Model.BlasC13Crit Model.BlasC13Spec
-  Model.BlasC13L1 Proofs.BlasC13Main Proofs.BlasC13Refuted Proofs.BlasC13Gemv Model.BlasC13L3 Model.BlasC13L3Crit Proofs.BlasC13RefProofs Proofs.BlasC13L1 Proofs.BlasC13Conj Proofs.BlasC13RankK.
+  Model.BlasC13L1 Proofs.BlasC13Main Proofs.BlasC13Refuted Proofs.BlasC13Gemv Model.BlasC13L3 Model.BlasC13L3Crit Proofs.BlasC13RefProofs Proofs.BlasC13L1 Proofs.BlasC13Conj Proofs.BlasC13RankK
+  Model.BlasC13L1Ref Model.BlasC13L3Spec Model.BlasC13TrsmRef Proofs.BlasC13L1Marsh Proofs.BlasC13RankKSites Proofs.BlasC13Trsm
+  Model.BlasC13L3Gen Proofs.BlasC13L3GenEq.
 Local Open Scope Z_scope.
 
 (* the ladders the theorems speak about are the ones in the source text now *)
@@ -158,7 +160,7 @@ Proof. exact rk_criterion_sound. Qed.
 Print Assumptions C13_rank_k_criterion_sound.
 
 (* the criterion is satisfiable by the dispatch: herk of a column-major 3x2 a into the upper triangle of a column-major c
-   (site 714), and of a row-major a into a row-major c through the transposed output (site 711) *)
+   (site 713), and of a row-major a into a row-major c through the transposed output (site 711) *)
 Theorem C13_rank_k_satisfiable :
   (exists k, herk_dispatch true (mk_mat 1000000 1 3 3 2 false) (mk_mat 3000000 1 3 3 3 false) = L3Call k
              /\ rk_implements_b true true k (mk_mat 1000000 1 3 3 2 false) (mk_mat 3000000 1 3 3 3 false) = true)
@@ -166,3 +168,166 @@ Theorem C13_rank_k_satisfiable :
               /\ rk_implements_b true false k (mk_mat 1000000 2 1 3 2 false) (mk_mat 3000000 4 1 3 3 false) = true).
 Proof. exact rk_instances. Qed.
 Print Assumptions C13_rank_k_satisfiable.
+
+(* ------------------------------------------------------------------------------------------------------------------ *)
+(* syrk / herk site by site: rk_site_cond names, per call site, when the site is right; the conditions are needed         *)
+(* ------------------------------------------------------------------------------------------------------------------ *)
+Theorem C13_syrk_partial :
+  forall (R : Type) (rzero : R) (radd rmul : R -> R -> R) (cj re : R -> R),
+    (forall x y, rmul x y = rmul y x) -> (forall x, cj (cj x) = x) ->
+    forall (upper : bool) (alpha beta : R) (a c : mat) (mem : Z -> R),
+      wf_mat a -> wf_mat c -> rows a = rows c -> cols c = rows c -> mconj a = false -> mconj c = false ->
+      rk_site_cond (syrk_dispatch upper a c) a c = true ->
+      rk_correct_at R rzero radd rmul cj re false upper alpha beta a c (syrk_dispatch upper a c) mem.
+Proof. exact syrk_partial. Qed.
+Print Assumptions C13_syrk_partial.
+
+Theorem C13_herk_partial :
+  forall (R : Type) (rzero : R) (radd rmul : R -> R -> R) (cj re : R -> R),
+    (forall x y, rmul x y = rmul y x) -> (forall x, cj (cj x) = x) ->
+    forall (upper : bool) (alpha beta : R) (a c : mat) (k : rk_call) (mem : Z -> R),
+      wf_mat a -> wf_mat c -> rows a = rows c -> cols c = rows c -> mconj c = false ->
+      herk_dispatch upper a c = L3Call k ->
+      rk_site_cond k a c = true ->
+      rk_correct_at R rzero radd rmul cj re true upper alpha beta a c k mem.
+Proof. exact herk_partial. Qed.
+Print Assumptions C13_herk_partial.
+
+Theorem C13_syrk_site_601_refuted : ~ syrk_site_full 601.
+Proof. exact syrk_site_601_refuted. Qed.
+Print Assumptions C13_syrk_site_601_refuted.
+Theorem C13_syrk_site_602_refuted : ~ syrk_site_full 602.
+Proof. exact syrk_site_602_refuted. Qed.
+Print Assumptions C13_syrk_site_602_refuted.
+Theorem C13_herk_site_704_refuted : ~ herk_site_full 704.
+Proof. exact herk_site_704_refuted. Qed.
+Print Assumptions C13_herk_site_704_refuted.
+Theorem C13_herk_site_711_refuted : ~ herk_site_full 711.
+Proof. exact herk_site_711_refuted. Qed.
+Print Assumptions C13_herk_site_711_refuted.
+
+(* ------------------------------------------------------------------------------------------------------------------ *)
+(* trsm, relative to the reference xTRSM RELATION (trsm_post: the column-major solution satisfies its triangular          *)
+(* equation and nothing else changes): then the view-side contents satisfy tri(a).X = alpha.b resp. X.tri(a) = alpha.b    *)
+(* ------------------------------------------------------------------------------------------------------------------ *)
+Theorem C13_trsm_criterion_sound :
+  forall (R : Type) (rzero rone : R) (radd rmul : R -> R -> R) (cj : R -> R),
+    (forall x y, rmul x y = rmul y x) -> (forall x, cj (cj x) = x) ->
+    (forall x y, cj (radd x y) = radd (cj x) (cj y)) -> (forall x y, cj (rmul x y) = rmul (cj x) (cj y)) ->
+    cj rzero = rzero -> cj rone = rone ->
+    forall (left lower unit : bool) (alpha : R) (a b : mat) (k : trsm_call) (mem mem' : Z -> R),
+      trsm_implements_b left lower unit k a b = true ->
+      trsm_post R rzero rone radd rmul cj (if t_conj_alpha k then cj alpha else alpha) k mem mem' ->
+         trsm_legal k = true
+      /\ trsm_math R rzero rone radd rmul cj left lower unit alpha a b mem mem'
+      /\ (forall p, ~ in_mat b p -> mem' p = mem p).
+Proof. exact trsm_criterion_sound. Qed.
+Print Assumptions C13_trsm_criterion_sound.
+
+(* all nine call sites of trsm.hpp:92-107 are right whenever the call they make is legal (trsm_site_cond = trsm_legal) *)
+Theorem C13_trsm_partial :
+  forall (R : Type) (rzero rone : R) (radd rmul : R -> R -> R) (cj : R -> R),
+    (forall x y, rmul x y = rmul y x) -> (forall x, cj (cj x) = x) ->
+    (forall x y, cj (radd x y) = radd (cj x) (cj y)) -> (forall x y, cj (rmul x y) = rmul (cj x) (cj y)) ->
+    cj rzero = rzero -> cj rone = rone ->
+    forall (left lower unit : bool) (alpha : R) (a b : mat) (k : trsm_call) (mem mem' : Z -> R),
+      wf_mat a -> wf_mat b ->
+      rows a = (if left then rows b else cols b) -> cols a = rows a ->
+      trsm_dispatch left lower unit a b = L3Call k ->
+      trsm_site_cond k = true ->
+      trsm_post R rzero rone radd rmul cj (if t_conj_alpha k then cj alpha else alpha) k mem mem' ->
+         trsm_math R rzero rone radd rmul cj left lower unit alpha a b mem mem'
+      /\ (forall p, ~ in_mat b p -> mem' p = mem p).
+Proof. exact trsm_partial. Qed.
+Print Assumptions C13_trsm_partial.
+
+Theorem C13_trsm_always_legal_refuted : ~ trsm_always_legal.
+Proof. exact trsm_always_legal_refuted. Qed.
+Print Assumptions C13_trsm_always_legal_refuted.
+
+(* ------------------------------------------------------------------------------------------------------------------ *)
+(* level 1: marshalling theorems (any length incl. 0 and 1, any positive increments, any base)                            *)
+(* ------------------------------------------------------------------------------------------------------------------ *)
+Theorem C13_axpy_marshalling :
+  forall (R : Type) (radd rmul : R -> R -> R) (alpha : R) (x y : vec) (mem : Z -> R),
+    wf_vec x -> wf_vec y -> len x = len y ->
+       (forall l, 0 <= l < len y ->
+          axpy_ref R radd rmul alpha (axpy_call x y) mem (vaddr y l) = radd (rmul alpha (xval R x mem l)) (xval R y mem l))
+    /\ (forall p, ~ in_vec y p -> axpy_ref R radd rmul alpha (axpy_call x y) mem p = mem p).
+Proof. exact axpy_marshalling. Qed.
+Print Assumptions C13_axpy_marshalling.
+
+Theorem C13_axpy_operator_marshalling :
+  forall (R : Type) (radd rmul : R -> R -> R) (rneg : R -> R) (minus : bool) (alpha : R) (x y : vec) (mem : Z -> R),
+    wf_vec x -> wf_vec y -> len x = len y ->
+       (forall l, 0 <= l < len y ->
+          axpy_ref R radd rmul (axpy_op_scalar R rneg minus alpha) (axpy_call x y) mem (vaddr y l)
+          = radd (rmul (if minus then rneg alpha else alpha) (xval R x mem l)) (xval R y mem l))
+    /\ (forall p, ~ in_vec y p -> axpy_ref R radd rmul (axpy_op_scalar R rneg minus alpha) (axpy_call x y) mem p = mem p).
+Proof. exact axpy_operator_marshalling. Qed.
+Print Assumptions C13_axpy_operator_marshalling.
+
+Theorem C13_scal_marshalling :
+  forall (R : Type) (rmul : R -> R -> R) (alpha : R) (x : vec) (mem : Z -> R),
+    wf_vec x ->
+       (forall l, 0 <= l < len x -> scal_ref R rmul alpha (scal_call x) mem (vaddr x l) = rmul alpha (xval R x mem l))
+    /\ (forall p, ~ in_vec x p -> scal_ref R rmul alpha (scal_call x) mem p = mem p).
+Proof. exact scal_marshalling. Qed.
+Print Assumptions C13_scal_marshalling.
+
+Theorem C13_copy_marshalling :
+  forall (R : Type) (x y : vec) (mem : Z -> R),
+    wf_vec x -> wf_vec y -> len x = len y ->
+       (forall l, 0 <= l < len y -> copy_ref R (copy_call x y) mem (vaddr y l) = xval R x mem l)
+    /\ (forall p, ~ in_vec y p -> copy_ref R (copy_call x y) mem p = mem p).
+Proof. exact copy_marshalling. Qed.
+Print Assumptions C13_copy_marshalling.
+
+Theorem C13_swap_marshalling :
+  forall (R : Type) (x y : vec) (mem : Z -> R),
+    wf_vec x -> wf_vec y -> len x = len y -> vec_disjoint x y ->
+       (forall l, 0 <= l < len x -> swap_ref R (swap_call x y) mem (vaddr x l) = xval R y mem l)
+    /\ (forall l, 0 <= l < len y -> swap_ref R (swap_call x y) mem (vaddr y l) = xval R x mem l)
+    /\ (forall p, ~ in_vec x p -> ~ in_vec y p -> swap_ref R (swap_call x y) mem p = mem p).
+Proof. exact swap_marshalling. Qed.
+Print Assumptions C13_swap_marshalling.
+
+Theorem C13_asum_marshalling :
+  forall (R Sc : Type) (szero : Sc) (sadd : Sc -> Sc -> Sc) (abs1 : R -> Sc) (x : vec) (mem : Z -> R),
+    wf_vec x -> asum_ref R Sc szero sadd abs1 (red_call x) mem = asum_math R Sc szero sadd abs1 x mem.
+Proof. exact asum_marshalling. Qed.
+Print Assumptions C13_asum_marshalling.
+
+Theorem C13_nrm2_marshalling :
+  forall (R Sc : Type) (szero : Sc) (sadd : Sc -> Sc -> Sc) (sq : R -> Sc) (root : Sc -> Sc) (x : vec) (mem : Z -> R),
+    wf_vec x -> root szero = szero ->
+    nrm2_ref R Sc szero sadd sq root (red_call x) mem = nrm2_math R Sc szero sadd sq root x mem.
+Proof. exact nrm2_marshalling. Qed.
+Print Assumptions C13_nrm2_marshalling.
+
+(* blas::iamax returns the 0-based index of the first element of largest |re|+|im| (BLAS is 1-based: core.hpp:397 subtracts 1) *)
+Theorem C13_iamax_marshalling :
+  forall (R Sc : Type) (abs1 : R -> Sc) (sltb : Sc -> Sc -> bool),
+    (forall a b, sltb a b = true -> sltb b a = false) ->
+    (forall a b c, sltb a b = false -> sltb b c = false -> sltb a c = false) ->
+    (forall a b c, sltb b a = false -> sltb b c = true -> sltb a c = true) ->
+    forall (x : vec) (mem : Z -> R),
+      wf_vec x -> 0 < len x ->
+      is_first_amax R Sc abs1 sltb x mem (iamax_model R Sc abs1 sltb x mem).
+Proof. exact iamax_marshalling. Qed.
+Print Assumptions C13_iamax_marshalling.
+
+Theorem C13_iamax_empty :
+  forall (R Sc : Type) (abs1 : R -> Sc) (sltb : Sc -> Sc -> bool) (x : vec) (mem : Z -> R),
+    len x = 0 -> iamax_model R Sc abs1 sltb x mem = -1.
+Proof. exact iamax_empty. Qed.
+Print Assumptions C13_iamax_empty.
+
+(* the syrk / herk / trsm ladders regenerated from syrk.hpp / herk.hpp / trsm.hpp on this run compute what the hand
+   transcription (the subject of C13_syrk_partial, C13_herk_partial, C13_trsm_partial) computes *)
+Theorem C13_level3_dispatch_regenerated :
+     (forall upper a c, syrk_dispatch_gen upper a c = L3Call (syrk_dispatch upper a c))
+  /\ (forall upper a c, herk_dispatch_gen upper a c = herk_dispatch upper a c)
+  /\ (forall left lower unit a b, trsm_dispatch_gen left lower unit a b = trsm_dispatch left lower unit a b).
+Proof. exact level3_dispatch_regenerated. Qed.
+Print Assumptions C13_level3_dispatch_regenerated.
